@@ -17,6 +17,10 @@ def suspend(I, st, node=None):
     if not getattr(st, "_snap_taken", False):
         snapshot(I, st)
     st._snap_taken = False
+    for attr in ("finished", "cancel_requested"):
+        st.hget(I.field_key(attr, "Bool"), z3.BoolSort())
+    before = dict(st.heap)
+    task_progress(I, st)
     c = I.current_contract
     if c is None:
         return
@@ -26,6 +30,7 @@ def suspend(I, st, node=None):
     if c.rely_havoc:
         locs = calls.modifies_locations(I, st, c, env, c.rely_havoc)
         calls.havoc_locations(I, st, locs)
+    rebase_frame(I, st, before)
     if c.rely:
         saved = (st.old_heap, st.old_alloc)
         st.old_heap, st.old_alloc = st.suspend_heap, st.alloc
@@ -38,6 +43,57 @@ def suspend(I, st, node=None):
         if st.choose(2, "cancelled at suspension") == 1:
             from .state import RaiseExc, ExcVal
             raise RaiseExc(ExcVal("CancelledError", True), where=getattr(node, "lineno", None))
+
+
+def rebase_frame(I, st, before):
+    """what the environment changed during a suspension is not a write of the function under verification: the frame
+    condition compares against a baseline that follows the environment wherever the function itself had not written"""
+    from .vtypes import RefS
+    base = getattr(st, "frame_base", None)
+    if base is None:
+        base = st.frame_base = {}
+    for key, B in st.heap.items():
+        A = before.get(key)
+        if A is None or A is B or key == "$cls":
+            continue
+        E = base.get(key, st.heap0.get(key))
+        if E is None:
+            continue
+        F = st.fresh(B.sort(), "fbase")
+        o = z3.FreshConst(RefS, "o")
+        st.assume(z3.ForAll([o], z3.Select(F, o) == z3.If(z3.Select(A, o) == z3.Select(E, o), z3.Select(B, o), z3.Select(E, o))))
+        base[key] = F
+
+
+def task_progress(I, st):
+    """while this coroutine is suspended other tasks make progress: Task.finished may turn True (never back to False);
+    cancel_requested may turn True (assumed asyncio contract)"""
+    from .vtypes import RefS
+    for attr in ("finished", "cancel_requested"):
+        key = I.field_key(attr, "Bool")
+        old = st.cur_heap_get(key, z3.BoolSort())
+        new = st.fresh(old.sort(), "tasks_" + attr)
+        t = z3.FreshConst(RefS, "t")
+        st.assume(z3.ForAll([t], z3.Implies(z3.Select(old, t), z3.Select(new, t))))
+        st.hset(key, new)
+
+
+def task_field(I, st, t, attr):
+    return z3.Select(st.cur_heap_get(I.field_key(attr, "Bool"), z3.BoolSort()), t)
+
+
+def task_method(I, st, meth, obj, args, kwargs, node):
+    from .vtypes import NONE
+    from .interp import mkbool
+    if meth == "done":
+        return mkbool(task_field(I, st, obj.term, "finished"))
+    if meth == "cancel":
+        # requests cancellation; a finished task is not affected
+        key = I.field_key("cancel_requested", "Bool")
+        arr = st.hget(key, z3.ArraySort(obj.term.sort(), z3.BoolSort()))
+        st.hset(key, z3.Store(arr, obj.term, z3.Or(z3.Select(arr, obj.term), z3.Not(task_field(I, st, obj.term, "finished")))))
+        return mkbool(z3.Not(task_field(I, st, obj.term, "finished")))
+    raise Unsupported("Task.%s" % meth)
 
 
 def eval_await(I, st, node):
@@ -74,6 +130,12 @@ def await_value(I, st, v, node):
             suspend(I, st, node)
             from .vtypes import NONE
             return NONE
+        if kind == "wait":
+            return await_wait(I, st, v, node)
+        if kind == "gather":
+            return await_gather(I, st, v, node)
+        if kind == "opaque_coro":
+            return await_opaque(I, st, v, node)
     raise Unsupported("await of %s (line %s)" % (v.ty, getattr(node, "lineno", "?")))
 
 
@@ -81,14 +143,25 @@ def call_opaque(I, st, fv, args, kwargs, node):
     """a callable the repo merely stores (factory, handler, job): described by a sidecar contract `opaque:<attr>`"""
     from . import specs
     from .vtypes import REG, NONE, is_ref, strip_opt, NULL
-    kind = fv.term[0]
-    attr = fv.term[1] if kind == "opaque_field" else None
+    if z3.is_expr(fv.term):
+        kind, attr = "opaque_term", (fv.extra[1] if fv.extra and fv.extra[0] == "name" else None)
+    else:
+        kind = fv.term[0]
+        attr = fv.term[1] if kind == "opaque_field" else None
+        if kind == "opaque":
+            attr = fv.term[1].split("!")[0].rstrip("0123456789_")
+    # the sidecar contract is looked up by the name the repo gives the callable (field, parameter or loop variable)
+    if attr is None and isinstance(getattr(node, "func", None), __import__("ast").Name):
+        attr = node.func.id
     c = I.db.get("opaque:%s" % attr) if attr else None
     if c is None:
         raise Unsupported("call of opaque callable %s (line %s): no `opaque:` contract" % (attr, getattr(node, "lineno", "?")))
     I.used_contracts.add(c.key)
     rt = REG.parse(c.returns) if c.returns else "NoneT"
     res = NONE if rt == "NoneT" else st.fresh_val(rt, "res_" + attr, assume_alloc=False, finite=False)
+    if c.may_suspend:
+        # an async callable: calling it only creates the coroutine; awaiting it is a suspension point
+        return Val("Awaitable", ("opaque_coro", c, res))
     env = {"result": res}
     pre_heap, pre_alloc = dict(st.heap), st.alloc
     saved = (st.old_heap, st.old_alloc)
@@ -105,6 +178,131 @@ def call_opaque(I, st, fv, args, kwargs, node):
     return res
 
 
+def await_wait(I, st, v, node):
+    """await asyncio.wait(fs, timeout=, return_when=): (done, pending) partition the set fs had at the call; every task in
+    done is finished; without a timeout done is non-empty, and is all of fs for ALL_COMPLETED (assumed asyncio contract)"""
+    from .vtypes import REG, NONE, sort_of, FALSE, strip_opt, is_opt
+    _, fs, timeout, rw = v.term
+    kd = I.kd_of(fs)
+    if kd.kind != "set":
+        raise Unsupported("asyncio.wait on a %s" % kd.kind)
+    S0 = I.dom_of(st, fs)
+    ks = sort_of(kd.K)
+    if not st.decide(S0 != z3.K(ks, FALSE)):
+        I.raise_(st, "ValueError", node)
+    w = st.fresh(ks, "waited")
+    st.assume(z3.Select(S0, w))
+    st.assume_type_inv(Val(kd.K, w))
+    snapshot(I, st)
+    suspend(I, st, node)
+    D = st.fresh(S0.sort(), "done")
+    t = z3.FreshConst(ks, "t")
+    st.assume(z3.ForAll([t], z3.Implies(z3.Select(D, t), z3.And(z3.Select(S0, t), task_field(I, st, t, "finished")))))
+    no_timeout = timeout.none if is_opt(timeout.ty) else z3.BoolVal(timeout.ty == "NoneT")
+    wd = st.fresh(ks, "first_done")
+    st.assume(z3.Implies(no_timeout, z3.Select(D, wd)))
+    all_c = rw.term == I.str_const(st, "ALL_COMPLETED").term
+    st.assume(z3.Implies(z3.And(no_timeout, all_c), D == S0))
+    cls = "Set[%s]" % kd.K[1]
+    REG.parse(cls)
+    done = I.new_dict(st, cls, dom=D)
+    P = st.deflam([t], z3.And(z3.Select(S0, t), z3.Not(z3.Select(D, t))))
+    pending = I.new_dict(st, cls, dom=P)
+    return Val(("Tuple", (done.ty, pending.ty)), (done, pending))
+
+
+def _raise_forks(I, st, keys, what, node):
+    """fork: normal / one path per exception key"""
+    from .state import RaiseExc, ExcVal
+    if not keys:
+        return
+    k = st.choose(1 + len(keys), "outcome of %s" % what)
+    st.trail.append("%s:%s" % (what, "ok" if k == 0 else keys[k - 1].rstrip("!")))
+    if k > 0:
+        key = keys[k - 1]
+        raise RaiseExc(ExcVal(key.rstrip("!"), key.endswith("!")), where=getattr(node, "lineno", None))
+
+
+def await_gather(I, st, v, node):
+    """await asyncio.gather(*aws, return_exceptions=?).  Supported shapes: tasks (every task finished afterwards);
+    coroutines of contracted repo functions (a homogeneous comprehension, or listed one by one).  The children run
+    interleaved with everything else: their *own* effects are the havoc of their contracts' `modifies`; everything other
+    tasks may do is the rely of the function under verification.  Raises what a child may raise (first exception wins)
+    unless return_exceptions=True; CancelledError if the caller is cancellable."""
+    from .vtypes import NONE, is_ref, strip_opt, sort_of
+    from . import calls, specs
+    _, items, ret_exc = v.term
+    swallow = ret_exc is not None and z3.is_true(z3.simplify(I.truthy(st, ret_exc)))
+    task_lists, coros = [], []
+    for it in items:
+        star = isinstance(it, tuple) and it[0] == "star"
+        x = it[1] if star else it
+        if x.ty == "CoroList":
+            coros.append(x.term)
+        elif x.ty == "Coro":
+            coros.append((x.term[0], x.term[1], None))
+        elif star and is_ref(strip_opt(x.ty)) and I.kd_of(x).kind in ("list", "set") and strip_opt(I.kd_of(x).V if I.kd_of(x).kind == "list" else I.kd_of(x).K) == ("Ref", "Task"):
+            task_lists.append(x)
+        elif star and x.extra and x.extra[0] in ("emptylist",):
+            pass
+        else:
+            raise Unsupported("asyncio.gather of %s (line %s)" % (x.ty, getattr(node, "lineno", "?")))
+    raise_keys = []
+    for fi, argmap, guard in coros:
+        c = I.db.get(fi.qualname)
+        if c is None:
+            raise Unsupported("asyncio.gather of coroutine %s without a contract" % fi.qualname)
+        I.used_contracts.add(c.key)
+        env = dict(argmap)
+        site = "%s.gather[%s]" % (I.short(st.frame.func), fi.name)
+        for cl in c.requires:
+            g = specs.eval_clause(I, st, cl, env, fi)
+            if guard is not None:
+                g = z3.Implies(guard, g)
+            st.oblige("%s.pre[%s]" % (site, cl.label), g, meta={"kind": "call_pre", "callee": fi.qualname, "clause": cl.text,
+                                                               "line": getattr(node, "lineno", None)})
+        locs = calls.modifies_locations(I, st, c, env, c.modifies)
+        calls.havoc_locations(I, st, locs)
+        for k in c.raises:
+            if k not in raise_keys:
+                raise_keys.append(k)
+    snapshot(I, st)
+    suspend(I, st, node)
+    if task_lists and not swallow:
+        # a task's exception propagates: the producer's / dispatch loop's own error
+        for k in ("Exception", "CancelledError"):
+            if k not in raise_keys:
+                raise_keys.append(k)
+    if swallow:
+        raise_keys = []
+    _raise_forks(I, st, raise_keys, "gather", node)
+    for x in task_lists:
+        kd = I.kd_of(x)
+        if kd.kind == "list":
+            i = z3.FreshConst(z3.IntSort(), "i")
+            items_ = I.list_items(st, x)
+            st.assume(z3.ForAll([i], z3.Implies(z3.And(0 <= i, i < I.list_len(st, x)),
+                                                task_field(I, st, z3.Select(items_, i), "finished"))))
+        else:
+            t = z3.FreshConst(sort_of(kd.K), "t")
+            st.assume(z3.ForAll([t], z3.Implies(z3.Select(I.dom_of(st, x), t), task_field(I, st, t, "finished"))))
+    return Val("Any", st.fresh(z3.DeclareSort("Ref") if False else I_refsort(), "gathered"))
+
+
+def I_refsort():
+    from .vtypes import RefS
+    return RefS
+
+
+def await_opaque(I, st, v, node):
+    from .vtypes import NONE
+    _, c, res = v.term
+    snapshot(I, st)
+    suspend(I, st, node)
+    _raise_forks(I, st, list(c.raises.keys()), c.qualname, node)
+    return res
+
+
 def call_any_method(I, st, meth, obj, args, kwargs, node):
     raise Unsupported("method %s on untyped value (line %s)" % (meth, getattr(node, "lineno", "?")))
 
@@ -112,7 +310,41 @@ def call_any_method(I, st, meth, obj, args, kwargs, node):
 def call_external(I, st, dotted, args, kwargs, node):
     if dotted == "asyncio.sleep":
         return Val("Awaitable", ("sleep", args[0]))
+    from .vtypes import NONE, RefS
+    from .interp import mkbool
+    if dotted == "asyncio.create_task":
+        t = st.allocate("Task", "task")
+        for attr in ("finished", "cancel_requested"):
+            I.write_field(st, t, attr, "Bool", mkbool(False))
+        return t
+    if dotted == "asyncio.wait":
+        return Val("Awaitable", ("wait", args[0], kwargs.get("timeout", NONE),
+                                 kwargs.get("return_when", I.str_const(st, "ALL_COMPLETED"))))
+    if dotted == "asyncio.gather":
+        return Val("Awaitable", ("gather", list(args), kwargs.get("return_exceptions")))
+    if dotted == "logging.getLogRecordFactory":
+        return log_factory(I, st)
+    if dotted == "logging.setLogRecordFactory":
+        st.ghost["$log_factory"] = args[0]
+        return NONE
     raise Unsupported("external call %s (line %s)" % (dotted, getattr(node, "lineno", "?")))
+
+
+def log_factory(I, st, entry=False):
+    """process-wide logging record factory (ghost global)"""
+    from .vtypes import RefS
+    init = Val("Any", z3.Const("log_factory0", RefS))
+    if entry:
+        return init
+    return st.ghost.get("$log_factory", init)
+
+
+def log_factory_is_entry(I, st):
+    cur = log_factory(I, st)
+    init = log_factory(I, st, entry=True)
+    if cur.ty == "Any" and z3.is_expr(cur.term):
+        return cur.term == init.term
+    return z3.BoolVal(False)
 
 
 def clock_value(I, st, which, old=False):
